@@ -47,7 +47,7 @@ impl Prop for C12 {
         "exploration"
     }
     fn rule(&self) -> String {
-        "E4 byte-deviation explorer: for every primitive decoder (identifier, shares, keys, nonces, commitments, deltas, randomizer, signature, commitment vector) x 3 decoding paths (own deserialize, serde+postcard, serde+JSON) x several base encodings (1, 2, q-1, seeded; G, kG): EVERY single-bit flip, EVERY single-byte substitution (255 values x every position), EVERY length 0..2L; oracle: accepted => re-encoding reproduces the input exactly. Plus explicit must-reject strings, every version byte, every deviation of the ciphersuite id, cross-suite encodings, and value round trips of ~40 wire types x shapes x id kinds in postcard and JSON. Non-trivial = a deviation that differs from the base encoding was decoded".into()
+        "E4 byte-deviation explorer: for every primitive decoder (identifier, shares, keys, nonces, commitments, deltas, randomizer, signature, commitment vector) x 3 decoding paths (own deserialize, serde+postcard, serde+JSON) x several base encodings (1, 2, q-1, seeded; G, kG): EVERY single-bit flip, EVERY single-byte substitution (255 values x every position), EVERY length 0..2L; oracle: accepted => re-encoding reproduces the input exactly. Plus explicit must-reject strings, every version byte, every deviation of the ciphersuite id, cross-suite encodings, value round trips of ~40 wire types x shapes x id kinds in postcard and JSON (JSON decoded from memory, through a reader and through a Value), the message alphabet, thresholds at the varint boundaries, 300-entry containers; a JSON ciphersuite string with the SAME CRC-32 as the real one must be rejected; accept/reject of the raw decoders compared with independent Python decoders. Non-trivial = a deviation that differs from the base encoding was decoded".into()
     }
     fn assumptions(&self) -> Vec<String> {
         vec![
